@@ -203,23 +203,28 @@ void h_any(void)
 }
 #endif
 
-/* ---------- texts longer than parse_date's 64-byte copy buffer (concrete filler, symbolic length and first character) ---------- */
+/* ---------- three concrete texts of 70 bytes, longer than parse_date's 64-byte copy buffer ---------- */
 #ifdef T_LONG
-void h_long(void)
+static void run_long(const char first)
 {
-    size_t len; time_t ret; char first;
-    __CPROVER_assume(len >= 60 && len < 72);
-    __CPROVER_assume(first == 'x' || first == '1' || first == ' ');
+    const size_t len = 70;
+    time_t ret;
     tg_ret = ret; reset();
     char *s = blk(len + 1);
-    for (size_t i = 0; i < 72; i++)
-        if (i < len) s[i] = (i == 0) ? first : (i == 40 ? '-' : 'x');
+    for (size_t i = 0; i < len; i++)
+        s[i] = (i == 0) ? first : (i % 3 == 2 ? ' ' : 'x');    /* "xx xx xx ...": parse_date gives up at the fourth name */
     s[len] = 0;
     time_t r = Time_ParseRfc1123(s);
     /* obligations proper: the bounds checks on tmp[64] in xstrncpy / the strtok model / strchr */
-    ENS(r == (time_t)-1 && tg_calls == 0, "an over-long single token is rejected");
-    RCH(len > 64 && first == '1', "longer than the buffer, digit first (searched for '-')");
-    RCH(len == 63, "fits exactly");
+    ENS(r == (time_t)-1 && tg_calls == 0, "an over-long text of name tokens is rejected");
+    RCH(cv_tok_calls >= 4, "several tokens are cut from the copy");
+}
+/* fully concrete texts (symbolic execution then decides every branch): first token a name, a digit-first token, or preceded by a separator */
+void h_long(void)
+{
+    run_long('x');
+    run_long('1');
+    run_long(' ');
 }
 #endif
 
